@@ -119,7 +119,9 @@ class Builder:
             return self.op_insert()
         r = self.r
         s, fam, net, rpid = r.pick(self.inserted)
-        cur = self.active.get((self.srcs[s][0], fam), s)
+        cur = self.active.get((self.srcs[s][0], fam))
+        if cur is None:
+            return self.op_insert()
         nh = r.pick(["-", "1", "2", "3"])
         a = r.below(len(self.attrs))
         filt = "t" if r.chance(1, 4) else "f"
@@ -129,7 +131,9 @@ class Builder:
         r = self.r
         if self.inserted and r.chance(5, 6):
             s, fam, net, rpid = r.pick(self.inserted)
-            cur = self.active.get((self.srcs[s][0], fam), s)
+            cur = self.active.get((self.srcs[s][0], fam))
+            if cur is None:
+                return
             self.ops.append("(rm %d %s %s %d)" % (cur, fam, net, rpid))
         else:
             fam = r.pick(self.fams)
@@ -171,7 +175,7 @@ class Builder:
         elif kind in ("dstale", "dllgr", "dnollgr"):
             ctr = "-"
             cur = self.active.get((addr, fam))
-            if cur is not None and r.chance(1, 3):
+            if cur is not None and r.chance(1, 3) and sum(1 for s in self.srcs if s[0] == addr) == 1:
                 ctr = str(cur)
             self.ops.append("(%s %d %s %s)" % (kind, addr, fam, ctr))
         elif kind == "nhv":
